@@ -26,7 +26,7 @@ ASSUMPTIONS = [
 ]
 REQUIRED_CLASSES = ["decision=accept", "decision=reject", "edited+macs-verify", "edit=adr", "edit=stored", "edit=declared", "edit=duptag", "edit=taglen",
                     "edit=desclen", "edit=entrylen", "edit=dirsize", "edit=sentinel", "edit=swap", "edit=payload", "edit=trailer", "edit=dummy", "edit=ivindex",
-                    "edit=macflip", "unedited", "framing=bec2"]
+                    "edit=macflip", "edit=entrytail", "entrytail.fixed-point", "unedited", "framing=bec2"]
 
 
 # ------------------------------------------------------------------ field structure
@@ -50,7 +50,7 @@ def serialise(s, key):
     """Render the structure; MACs marked None are computed over exactly what the edited fields designate."""
     ent_sizes = []
     for e in s["entries"]:
-        ent_sizes.append(12 + 16 + 1 + len(_tlv_bytes(e["tlvs"])) + len(e["pad"]) + 16)
+        ent_sizes.append(12 + 16 + 1 + len(_tlv_bytes(e["tlvs"])) + len(e["pad"]) + 16 + (1 if e.get("tail") else 0))
     dir_len = sum(1 + n for n in ent_sizes) + len(s["sentinel"])
     body_start = len(s["header"]) + 4 + dir_len
     area = b"".join(s["payloads"]) + s["trailer"]
@@ -72,6 +72,26 @@ def serialise(s, key):
         idx = (i + 1) if e["mac_index"] is None else e["mac_index"]
         emac = e["emac"] if e["emac"] is not None else M.mac(key, body, idx.to_bytes(16, "big"))
         ent = body + emac
+        if e.get("tail"):
+            # ONE surplus byte BEHIND the entry MAC.  A reader that takes "the entry minus its last 16 bytes" as MAC input then MACs
+            # body || first byte of the stored MAC, so "MACs recomputed" means a FIXED POINT: M = mac(body || M[0]).  It is searched over the
+            # 256 values of M[0] and the value of the nonce tag put into the entry for this purpose (expected ~1.6 nonces).
+            found = None
+            nonce_at = body.rfind(e["tail"][1]) if e["tail"][1] else -1
+            for nonce in range(256 if nonce_at >= 0 else 1):
+                b2 = body if nonce_at < 0 else body[:nonce_at + 2] + bytes([nonce]) + body[nonce_at + 3:]
+                for m0 in range(256):
+                    mm = M.mac(key, b2 + bytes([m0]), idx.to_bytes(16, "big"))
+                    if mm[0] == m0:
+                        found = b2 + mm
+                        break
+                if found:
+                    break
+            if found:
+                s.setdefault("notes", []).append("entrytail.fixed-point")
+                ent = found + e["tail"][0]
+            else:
+                ent = ent + e["tail"][0]
         if len(ent) > 255 or desc_len > 255:
             raise ValueError("entry does not fit its one-byte length")
         elen = len(ent) if e["entry_len"] is None else e["entry_len"]
@@ -87,7 +107,7 @@ def serialise(s, key):
 def apply_edit(s, ed, key):
     kind = ed[0]
     n = len(s["entries"])
-    if kind in ("adr", "stored", "declared", "duptag", "taglen", "desclen", "entrylen", "entrypad", "ivindex", "macflip") and n == 0:
+    if kind in ("adr", "stored", "declared", "duptag", "taglen", "desclen", "entrylen", "entrypad", "entrytail", "ivindex", "macflip") and n == 0:
         return False
     i = ed[1] % n if n and len(ed) > 1 and isinstance(ed[1], int) else 0
     e = s["entries"][i] if n else None
@@ -119,6 +139,16 @@ def apply_edit(s, ed, key):
         e["entry_len"] = max(1, cur + ed[2])
     elif kind == "entrypad":
         e["pad"] = bytes(ed[2])
+    elif kind == "entrytail":
+        if e.get("tail") or e["pad"] or e["entry_len"] is not None or e["emac"] is not None:
+            return False
+        used = {t for t, ln, v in e["tlvs"]}
+        free = [t for t in (0xEF, 0xEE, 0xED, 0xEC, 0xEB, 0xEA) if t not in used]
+        marker = b""
+        if free and ed[3]:
+            e["tlvs"].append((free[0], None, b"\x00"))
+            marker = bytes([free[0], 1])  # the nonce tag is the LAST tag: serialise finds it with rfind
+        e["tail"] = (bytes([ed[2] & 0xFF]), marker)
     elif kind == "dirsize":
         s["dir_size"] = max(0, _dirlen(s) + ed[1])
     elif kind == "sentinel":
@@ -172,7 +202,7 @@ def apply_edit(s, ed, key):
 
 
 def _dirlen(s):
-    return sum(1 + 12 + 16 + 1 + len(_tlv_bytes(e["tlvs"])) + len(e["pad"]) + 16 for e in s["entries"]) + len(s["sentinel"])
+    return sum(1 + 12 + 16 + 1 + len(_tlv_bytes(e["tlvs"])) + len(e["pad"]) + 16 + (1 if e.get("tail") else 0) for e in s["entries"]) + len(s["sentinel"])
 
 
 def _auto_adr(s, i):
@@ -211,6 +241,8 @@ def check(case, rec):
     except (OverflowError, ValueError):
         rec.cls("skipped.unserialisable")
         return
+    for note in set(s.get("notes", [])):
+        rec.cls(note)
     # scope guard: encrypted components keep whole blocks
     for e in s["entries"]:
         if any(t == M.TAG_ENC and v == M.ENC_SESSIONKEY for t, ln, v in e["tlvs"]) and e["stored"] % 16:
@@ -276,6 +308,8 @@ def edit_strategy():
         st.tuples(st.just("desclen"), _idx, st.sampled_from([-2, -1, 1, 2, 16])),
         st.tuples(st.just("entrylen"), _idx, st.sampled_from([-16, -2, -1, 1, 2, 16])),
         st.tuples(st.just("entrypad"), _idx, st.integers(1, 3)),
+        st.tuples(st.just("entrytail"), _idx, st.integers(0, 255), st.booleans()),
+        st.tuples(st.just("entrytail"), _idx, st.integers(0, 255), st.just(True)),
         st.tuples(st.just("dirsize"), st.sampled_from([-2, -1, 1, 2, 16, 255, 65536])),
         st.tuples(st.just("sentinel"), st.integers(0, 3), st.integers(0, 254)),
         st.tuples(st.just("swap"), _idx, st.booleans()),
